@@ -163,24 +163,34 @@ theorem solveStep_scale {c eps : ℝ} (hc : 0 < c) (heps : 0 ≤ eps) (O : Oracl
     rw [withL_L, withL_withL] at hmat
     rw [show K0.L * (c * m) = c * (K0.L * m) by ring, hmat]
 
-theorem iterate_scale {c eps : ℝ} (hc : 0 < c) (heps : 0 ≤ eps) (O : Oracles ℝ)
-    (hO : AgopScaleCovariant O) (K0 : Spec ℝ) (hK : ParamOK K0) (hL : 0 ≤ K0.L)
-    (X Y : List (List ℝ)) (i : ℕ) (hg : GuardOff eps c O K0 X Y i) :
+/-- Scale covariance of the whole adaptive fit from covariance of the AGOP step **at the iterates the fit visits**. -/
+theorem iterate_scale_on {c eps : ℝ} (hc : 0 < c) (heps : 0 ≤ eps) (O : Oracles ℝ)
+    (K0 : Spec ℝ) (hK : ParamOK K0) (hL : 0 ≤ K0.L)
+    (X Y : List (List ℝ)) (i : ℕ) (hg : GuardOff eps c O K0 X Y i)
+    (hO : ∀ j < i, ∀ it, iterate O eps K0 X Y j = some it →
+      O.upd (it.K.withL (c * it.K.L)) it.T (X.map (smul c)) it.alpha = O.upd it.K it.T X it.alpha) :
     iterate O eps K0 (X.map (smul c)) Y i = (iterate O eps K0 X Y i).map (scaleIt c) := by
   induction i with
   | zero =>
     exact solveStep_scale hc heps O K0 hK hL X Y .none fun it h => hg 0 le_rfl it h
   | succ i ih =>
-    have ih' := ih fun j hj it h => hg j (Nat.le_succ_of_le hj) it h
+    have ih' := ih (fun j hj it h => hg j (Nat.le_succ_of_le hj) it h)
+      (fun j hj it h => hO j (Nat.lt_succ_of_lt hj) it h)
     simp only [iterate, ih']
     cases hi : iterate O eps K0 X Y i with
     | none => rfl
     | some it =>
       simp only [Option.map_some, Option.bind_some, scaleIt]
-      rw [hO c hc it.K it.T X it.alpha]
+      rw [hO i (Nat.lt_succ_self i) it hi]
       apply solveStep_scale hc heps O K0 hK hL X Y
       intro it' h'
       exact hg (i + 1) le_rfl it' (by simp only [iterate, hi, Option.bind_some]; exact h')
+
+theorem iterate_scale {c eps : ℝ} (hc : 0 < c) (heps : 0 ≤ eps) (O : Oracles ℝ)
+    (hO : AgopScaleCovariant O) (K0 : Spec ℝ) (hK : ParamOK K0) (hL : 0 ≤ K0.L)
+    (X Y : List (List ℝ)) (i : ℕ) (hg : GuardOff eps c O K0 X Y i) :
+    iterate O eps K0 (X.map (smul c)) Y i = (iterate O eps K0 X Y i).map (scaleIt c) :=
+  iterate_scale_on hc heps O K0 hK hL X Y i hg fun _ _ it _ => hO c hc it.K it.T X it.alpha
 
 /-- a stored iterate has a non-negative bandwidth when the guard is off -/
 theorem iterate_L_nonneg {eps : ℝ} (heps : 0 ≤ eps) (O : Oracles ℝ) (K0 : Spec ℝ) (hL : 0 ≤ K0.L)
